@@ -545,3 +545,24 @@ package pongo2
 //@ func filterLjust
 //@   at strings.Repeat requires {C18} @pads-to-width arg0 == " " && arg1 == max(VInteger(param) - VLen(in), 0)
 //@   ensures {C18} @no-error-when-it-fits VInteger(param) <= VLen(in) ==> r1 == nil
+// truncatewords: the first min(n, #words) words, then "..." iff words were dropped, joined by one space
+//@ func filterTruncatewords
+//@   ensures {C18} @non-positive-gives-empty VInteger(param) <= 0 ==> r0.val == RVOf(box(""))
+//@   at append[string] requires {C18} @appends-words-in-order-then-ellipsis elem == "..." || (0 <= i && i < len(words) && elem == words[i] && len(out) == i)
+//@   at strings.Join requires {C18} @first-n-words-then-ellipsis arg1 == " " && len(arg0) == min(len(words), VInteger(param)) + ite(VInteger(param) < len(words), 1, 0) && (VInteger(param) < len(words) ==> arg0[len(arg0) - 1] == "...")
+// wordwrap: line i holds words[w*i : min(w*(i+1), W)], ceil(W/w) lines, joined by newlines
+//@ func filterWordwrap
+//@   ensures {C18} @non-positive-width-unchanged VInteger(param) <= 0 ==> r0 == in
+//@   at strings.Join#0 requires {C18} @line-i-is-its-window arg1 == " " && arr(arg0) == arr(words) && off(arg0) == off(words) + wrap64(wrapAt * i) && len(arg0) == min(wrap64(wrapAt * (i + 1)), wordsLen) - wrap64(wrapAt * i)
+//@   at strings.Join#1 requires {C18} @ceil-lines arg1 == "\n" && len(arg0) == wordsLen / wrapAt + ite(wordsLen % wrapAt > 0, 1, 0)
+//@ func filterGetdigit
+//@   ensures {C18} @out-of-range-unchanged (VInteger(param) <= 0 || VInteger(param) > len(VString(in))) ==> r0 == in
+//@   ensures {C18} @digit-from-the-right (0 < VInteger(param) && VInteger(param) <= len(VString(in)) && 48 <= strat(VString(in), len(VString(in)) - VInteger(param)) && strat(VString(in), len(VString(in)) - VInteger(param)) <= 57) ==> r0.val == RVOf(box(strat(VString(in), len(VString(in)) - VInteger(param)) - 48))
+//@   ensures {C18} @non-digit-unchanged (0 < VInteger(param) && VInteger(param) <= len(VString(in)) && !(48 <= strat(VString(in), len(VString(in)) - VInteger(param)) && strat(VString(in), len(VString(in)) - VInteger(param)) <= 57)) ==> r0 == in
+// widthratio: round(current / max * width), ties away from zero (math.Round: ASSUMED library semantics)
+//@ extern math.Round(x) (r0)
+//@   pure as MathRound
+//@ func (*tagWidthratioNode).Execute
+//@   at math.Round requires {C18} @ratio-times-width arg0 == VFloat(current) / VFloat(max) * VFloat(width)
+//@   at mapupdate requires {C18} @stores-rounded-value m == ctx.Private && k == node.ctxName && v == box(toint(lastresult("math.Round")))
+//@   at fmt.Sprintf requires {C18} @prints-rounded-value len(arg1) == 1 && arg1[0] == box(toint(lastresult("math.Round")))
